@@ -49,3 +49,13 @@ Proof. reflexivity. Qed.
 Lemma gen_version_listener ots version_set :
   G.version_listener_fires (tok_of ots) version_set true = version_set || wants_version ots.
 Proof. reflexivity. Qed.
+
+(* ArgvArgs / StringArgs: the option tokens are the tokens before the first "--", and has_option_token is membership *)
+Lemma gen_option_tokens toks : G.option_tokens str_eqb toks = option_tokens toks.
+Proof.
+  unfold G.option_tokens. induction toks as [|t r IH]; [reflexivity|].
+  cbn [G.takewhile option_tokens]. unfold is_ddash. change [DASH; DASH] with [45; 45]%N.
+  destruct (str_eqb t [45; 45]%N); cbn [negb]; [reflexivity|]. f_equal. exact IH.
+Qed.
+Lemma gen_has_option_token toks t : G.has_option_token str_eqb toks t = has_token t (option_tokens toks).
+Proof. unfold G.has_option_token, has_token. now rewrite gen_option_tokens. Qed.
